@@ -50,7 +50,8 @@ def species_st(draw, name):
     return {'name': name, 'elements': elements, 'float_counts': float_counts,
             'phase': draw(st.sampled_from(['G', 'S', 'L', 'B', 'g', 'X', '1'])), 'T_low': T_low, 'T_mid': T_mid, 'T_high': T_high,
             'a_low': [draw(coef_st) for _ in range(7)], 'a_high': [draw(coef_st) for _ in range(7)],
-            'notes': draw(st.one_of(st.none(), st.text('abcXYZ0189-_', min_size=1, max_size=8)))}
+            'notes': draw(st.one_of(st.none(), st.text('abcXYZ0189-_', min_size=1, max_size=8),
+                                   st.text('abcXYZ0189-_', min_size=9, max_size=24)))}
 
 
 @st.composite
@@ -62,7 +63,7 @@ def file_case(draw):
             'read_format': draw(st.sampled_from(['list', 'tuple', 'dict'])),
             'supp_txt': draw(st.one_of(st.none(), st.just('! a comment block\n! END of comment: THERMO data follow'),
                                        st.just('!'))),
-            'supp': draw(st.booleans()), 'to_string': draw(st.booleans())}
+            'supp': draw(st.booleans()), 'supp_keeps_END': draw(st.booleans()), 'to_string': draw(st.booleans())}
 
 
 def build_nasa(d):
@@ -128,7 +129,8 @@ def check_file(case, ctx):
     if case['supp']:
         # a second thermdat body passed through as supplementary data
         supp_data = ''.join(write_thermdat([build_nasa(dict(descs[0], name='SUPP1'))], write_date=False).split('\n', 2)[2:])
-        supp_data = supp_data.replace('END', '').rstrip('\n')
+        if not case.get('supp_keeps_END'):
+            supp_data = supp_data.replace('END', '').rstrip('\n')
     d = tempfile.mkdtemp(prefix='vf-c05-')
     try:
         fn = os.path.join(d, 'thermdat')
